@@ -55,12 +55,60 @@ def run_lemmas(prop, which, functions, assumptions, explanation, extra_fn=None):
   return out.finish()
 
 
+def replay_whole(name, args):
+  import os, subprocess, sys, tempfile, shutil
+  src, names = K.whole_source()
+  d = tempfile.mkdtemp(prefix='logica_verif_c15w_')
+  try:
+    p = os.path.join(d, 'replay.py')
+    with open(p, 'w') as f:
+      f.write(kern.PRELUDE % os.environ.get('VERIF_REPO', '/repo') + src +
+              '\nimport sys\nsys.exit(0 if %s(%s) else 7)\n' % (name, args))
+    r = subprocess.run([sys.executable, p], stdout=subprocess.PIPE, stderr=subprocess.STDOUT, text=True)
+    return (r.returncode != 0, 'layout noise at a blank between tokens changes what ParseFile returns (exit %d)' % r.returncode,
+            {'call': '%s(%s)' % (name, args), 'output': r.stdout[-800:], 'kernel': name})
+  finally:
+    shutil.rmtree(d, ignore_errors=True)
+
+
+KF_WITNESS = 'P(x) :- T(l), x\nin l;\n'
+
+
+def whole_part(out):
+  """whole-ParseFile invariance under layout noise at every blank of eight programs"""
+  src, names = K.whole_source()
+  res = kernels.run_kernels(out, 'whole-program layout invariance', src, names, 900, replay_whole)
+  ok = [n for n in names if res[n].get('verdict') == 'confirmed' and res[n].get('twin') == 'reachable']
+  out.coverage['evaluations'] = out.coverage.get('evaluations', 0) + len(names)
+  out.coverage['distinct_nontrivial'] = out.coverage.get('distinct_nontrivial', 0) + len(ok)
+  out.coverage['whole_program_layout'] = {'programs': [n for n, t in K.WHOLE_PROGRAMS],
+                                          'noise_kinds': 8, 'sample_program': K.WHOLE_PROGRAMS[2][1]}
+  # always-run witness of the known finding
+  from ..real import parse
+  try:
+    parse.ParseFile(KF_WITNESS)
+    rejected = False
+  except parse.ParsingException as e:
+    rejected = 'Could not parse' in str(e)
+  try:
+    base = parse.ParseFile(KF_WITNESS.replace('\n', ' ', 1))
+    base_ok = True
+  except parse.ParsingException:
+    base_ok = False
+  if rejected and base_ok:
+    out.violation('a line break next to the keyword operator `in` is a parse error', {
+        'kernel': 'kf_keyword_needs_blanks', 'program': KF_WITNESS, 'outcome': 'ParsingException',
+        'same_program_with_a_blank_parses': True})
+
+
 def run():
-  return run_lemmas('C15', 'c15', FUNCTIONS, ASSUMPTIONS,
+  return run_lemmas('C15', 'c15', FUNCTIONS, ASSUMPTIONS + [
+      'whole-program part: for 8 programs covering the statement forms (facts, disjunction, negation, all three combine syntaxes, aggregating heads, functional predicates, records, lists, if-then-else, implication, annotations, := functors, denotations, string literals full of special characters) and every blank outside string literals, replacing the blank by one of 8 noises (more blanks, line break, tab, block comment, line comment, comments containing brackets / quotes / :-) leaves ParseFile(...)["rule"] unchanged up to the source snippets it carries, and every HeritageAwareString in the tree spans exactly its text; likewise without the final semicolon and with leading / trailing blank lines.  Placement and noise kind are the symbolic variables (solver-driven enumeration, parse runs natively on the resulting concrete text)',
+      'known finding KF-C15-keyword-needs-blanks is accepted inside the whole-program kernels only as: ParsingException, line break or tab in the noise, position adjacent to one of in / combine / if / then / else / is / not'],
                     'CrossHair executes the real scanner functions symbolically on every string within the stated length '
                     'bounds (free characters range over all code points); each lemma is claimed only when CrossHair reports '
                     '"Confirmed over all paths".  The lemmas are what the splitting parser rests on; lifting them to whole '
-                    'programs is not done by the solver.')
+                    'programs is not done by the solver.', extra_fn=whole_part)
 
 
 def replay(path):
